@@ -117,11 +117,6 @@ def check_after(ctx, fam, what, before, after, expect, data):
                      dict(data, reply=r[:80]))
 
 
-def split_tag(tag, pad):
-    """(frame data, version) of tag bytes written by _prepare_data, given the padding length"""
-    return tag[10:len(tag) - pad], tag[3]
-
-
 def check_save(ctx, fam, what, before, after, exc, mode, cb_log, had_tags, data, wpad=None):
     want = exc
     if not had_tags:
@@ -145,7 +140,7 @@ def check_save(ctx, fam, what, before, after, exc, mode, cb_log, had_tags, data,
     elif wpad is not None:
         pad = wpad
     if pad is not None and 0 <= pad <= len(tag) - 10 and tag[:3] == b"ID3" and not tag[len(tag) - pad:].strip(b"\x00"):
-        fd, ver = split_tag(tag, pad)
+        fd, ver = tag[10:len(tag) - pad], tag[3]
         reply = ctx.model.call("iff_save_cb", fam, hx(before), hx(fd), zs(ver), MODES[mode])
         ctx.corr_cases += 1
         parts = compare_bytes(ctx, what + " (callback form)", reply, after, None, data)
@@ -201,7 +196,10 @@ def coq_cb(mode):
 def vm_note(ctx, term, reply):
     """remember a small case (Gallina term, binary's reply); every VM_BATCH cases (first batch only per run) the same
     terms are evaluated by vm_compute inside Coq and must agree with the extracted binary"""
-    st = ctx.notes.setdefault("iff_vm", {"cases": [], "done": False})
+    st = getattr(ctx, "_iff_vm", None)
+    if st is None:
+        st = {"cases": [], "done": False}
+        setattr(ctx, "_iff_vm", st)
     if st["done"]:
         return
     st["cases"].append((term, reply))
